@@ -1,6 +1,6 @@
 /-
 For ENUMERABLE declarations the semantic contract `LinP.LogicModel` of the C01/C02/C03 composition ("at EVERY assignment
-satisfying the declared domains the sides are defined and the operands of and/or are 0/1-valued") reduces to the finitely
+satisfying the declared domains the sides are defined and the operands of and/or are 0/1-valued" — which implies the weaker no-collapse clause `NCon` the contract now carries) reduces to the finitely
 many enumerated assignments: `LogicOperands01` and definedness depend only on the variables that occur, and the
 enumeration is complete.  Helper lemmas for `Rooc/Props/C03.lean`.
 -/
@@ -76,19 +76,21 @@ theorem goodE_of_enumerated {d : List (DomVar (Ext K))} {asg : List (List (Strin
     refine ⟨a, ham, fun s hs => ?_⟩
     obtain ⟨dv, hdv, hu, rfl⟩ := mem_usedNames.1 (hv s hs)
     exact hagree dv hdv hu
-  refine ⟨?_, hf, ?_, ?_⟩
-  · intro x hx
-    rw [← Rooc.Compose.vars_eq_varsOf] at hx
-    obtain ⟨dv, hdv, hu, hn⟩ := mem_usedNames.1 (hv x hx)
-    exact ⟨dv, hdv, hn, hu⟩
-  · intro ρ hd
+  have hlo : LOon d e := by
+    intro ρ hd
     obtain ⟨a, ham, hs⟩ := hag ρ hd
     exact (lo01_congr e hs).1 (hp a ham).1
-  · intro ρ hd
+  have hdef : DefOn d e := by
+    intro ρ hd
     obtain ⟨a, ham, hs⟩ := hag ρ hd
     have := (hp a ham).2
     rw [Sem.eval_congr e hs] at this
     exact Option.isSome_iff_exists.1 this
+  refine ⟨?_, hf, NCon.ofLO hlo hdef, hdef⟩
+  intro x hx
+  rw [← Rooc.Compose.vars_eq_varsOf] at hx
+  obtain ⟨dv, hdv, hu, hn⟩ := mem_usedNames.1 (hv x hx)
+  exact ⟨dv, hdv, hn, hu⟩
 
 /-- every side of the model: the objective, and both sides of every constraint. -/
 def sides (m : Model (Ext K)) : List (Exp (Ext K)) :=
